@@ -49,6 +49,9 @@ pub fn templates() -> Vec<Template> {
         t("rule/lazy-operand", "rule", "r($x) <- q($x), true && $x == {a}", &["a"], &[], &[]),
         t("rule/scope", "rule", "r($x) <- q($x) trusting {k}", &[], &["k"], &[]),
         t("rule/term-and-scope", "rule", "r($x, {a}) <- q($x), $x != {a} trusting authority, {k}", &["a"], &["k"], &[]),
+        t("rule/same-name-term-and-scope", "rule", "r({k}) <- q($x) trusting {k}", &["k"], &["k"], &[]),
+        t("check/same-name-term-and-scope", "check", "check if q({k}) trusting {k}", &["k"], &["k"], &[]),
+        t("policy/same-name-term-and-scope", "policy", "allow if q($x), $x == {k} trusting authority, {k}", &["k"], &["k"], &[]),
         t("check/body", "check", "check if q({a})", &["a"], &[], &[]),
         t("check/body-nested", "check", "check if q([{a}])", &["a"], &[], &[]),
         t("check/expression", "check", "check if q($x), $x == {a}", &["a"], &[], &[]),
